@@ -182,10 +182,7 @@ def run_config(c, col):
                 gt = [int(a) for a in out.sampledata[FORMAT.GT][s]]
                 ploidy = len(gs[0])
                 ws = dict(w0, sample=s, GT=gt)
-                called = [g for g in gs if sorted([x for x in (label.get(tuple(h), -1) for h in g) if x >= 0]) + [-1] * sum(1 for h in g if tuple(h) not in label) == gt]
-                ok = len(gt) == ploidy and (masked is False or 0 not in gt) and all(-1 <= a < n_all for a in gt)
-                nn = [a for a in gt if a >= 0]
-                ok = ok and nn == sorted(nn) and gt == nn + [-1] * (ploidy - len(nn)) and bool(called)
+                ok, called = gt_ok(gt, gs, label, masked, n_all)
                 if not ok:
                     col.fail(site, "gt-form", shape=shape, witness=ws, desc="GT malformed: wrong length / uses masked allele 0 / not sorted with '.' last / not the projection of one of the sample's genotypes", model=path_model)
                 else:
@@ -218,6 +215,17 @@ def run_config(c, col):
 
 
 # ------------------------------------------------------------------ replay: the real application function with the MCMC replaced by the model's posterior
+
+
+def gt_ok(gt, gs, label, masked, n_all):
+    """GT well-formed AND the projection of one of the sample's genotypes through the label map ('.' exactly for haplotypes that
+    are not listed); returns (ok, genotypes that project onto gt) -- shared by the symbolic run and the replay"""
+    ploidy = len(gs[0])
+    called = [g for g in gs if sorted([x for x in (label.get(tuple(h), -1) for h in g) if x >= 0]) + [-1] * sum(1 for h in g if tuple(h) not in label) == gt]
+    ok = len(gt) == ploidy and (masked is False or 0 not in gt) and all(-1 <= a < n_all for a in gt)
+    nn = [a for a in gt if a >= 0]
+    ok = ok and nn == sorted(nn) and gt == nn + [-1] * (ploidy - len(nn)) and bool(called)
+    return ok, called
 
 
 def _real_run(c, m):
@@ -344,11 +352,18 @@ def replay(v):
         return bool(bad), "AFP problems: %s" % bad[:3]
     if k in ("gt-form", "gt-gpm-consistent", "alt-duplicates-or-ref"):
         bad = []
+        label = {h: i + 1 for i, h in enumerate(listed)}
+        if not masked:
+            label[(0, 0)] = 0
         for s, gs in zip(samples, scen):
             gt = [int(a) for a in out.sampledata[FORMAT.GT][s]]
-            nn = [a for a in gt if a >= 0]
-            if len(gt) != len(gs[0]) or (masked and 0 in gt) or nn != sorted(nn) or gt != nn + [-1] * (len(gt) - len(nn)):
-                bad.append((s, gt))
+            ok, called = gt_ok(gt, gs, label, masked, n_all)
+            if not ok:
+                bad.append((s, gt, "not the projection of a genotype of the sample through the listed alleles" if not called else "malformed"))
+            elif k == "gt-gpm-consistent":
+                gpm = float(out.sampledata[FORMAT.GPM][s])
+                if not any(abs(gpm - p) < 1e-9 for g, p in zip(gs, probs[s]) if g in called):
+                    bad.append((s, gt, "GPM %r is not the probability of the genotype GT encodes" % gpm))
         if len(set(listed)) != len(listed) or (0, 0) in listed:
             bad.append(("ALT", alts))
         return bool(bad), "GT/ALT problems: %s" % bad
